@@ -55,6 +55,7 @@ class Ctx:
         self.nloops = 0
         self.ret = spec['ret']
         self.dead = set()
+        self.dead_none = set()
 
     def define(self, name, typ):
         if name not in self.types:
@@ -235,6 +236,8 @@ def prop(cx, e):
         return f'({t}.len ≠ 0)'
     if ty == OPTDT:
         return f'({t} ≠ none)'
+    if ty == LLINE:
+        return f'(Sk.Py.lineLen {t} ≠ 0)'          # LogLine.__len__
     if ty == OPTINT:
         return f'({t} ≠ none ∧ {t} ≠ some 0)'
     raise Untranslatable(f'truth value of {ty} in {src}')
@@ -284,6 +287,9 @@ def has_control(stmts):
                 return True
             if isinstance(n, ast.Call) and is_file_op(n):
                 return True
+            if isinstance(n, ast.Call) and any(unparse(n.func) in sp.get('callees', {})
+                                               for sp in FUNCS):
+                return True             # a call of a translated function is a bind
     return False
 
 
@@ -373,8 +379,8 @@ def block(cx, stmts, k, loop=None):
             return after()              # only read by (dropped) log calls
         t, ty = expr(cx, val)
         if ty == NONE:
-            if not may_read_before_write(rest, nm) and loop is None:
-                return after()                       # dead initialisation
+            if id(s) in cx.dead_none:
+                return after()                       # dead initialisation (function level)
             prev = cx.types.get(nm)
             opt = {LLINE: OPTLLINE, OPTLLINE: OPTLLINE, INT: OPTINT, OPTINT: OPTINT}.get(prev)
             if opt is None:
@@ -933,6 +939,13 @@ def translate_one(repo, spec):
     for st_ in body:
         walk(st_)
     cx.dead = stored - loaded
+    # `x = None` at the top level of the function that is overwritten before it is ever read
+    for i, st_ in enumerate(body):
+        if isinstance(st_, ast.Assign) and isinstance(st_.value, ast.Constant) and \
+                st_.value.value is None and len(st_.targets) == 1 and \
+                isinstance(st_.targets[0], ast.Name) and \
+                not may_read_before_write(body[i + 1:], st_.targets[0].id):
+            cx.dead_none.add(id(st_))
     fuel = ' (fuel : Nat)' if spec['fuel'] else ''
 
     def fallthrough():
